@@ -1349,6 +1349,14 @@ func (r *c14Run) orderCase(idx []int, lt [][]string) {
 		}
 		return lt[idx[p]][idx[q]]
 	})
+	// orderRev: the same law with < flipped (an error iff two elements are incomparable, a permutation, no later element
+	// greater than an earlier one); judged on the implementation's own < answers (seeded/C14-g swallowed the comparison error)
+	orev := c14ObsVal(evalExpr("l.orderRev(x->x)", []string{"l"}, value.NewList(vals...)))
+	idr := r.nextID()
+	r.sum.Evaluations++
+	humanR := r.record(idr, "order", "orderRev/n="+fmt.Sprint(len(idx))+"/law", idx, "l.orderRev(x->x) -> "+orev)
+	r.sum.Count("orderRev_outcome", map[bool]string{true: "error", false: "sorted list"}[orev == c14OE])
+	r.orderLaw(idr, humanR, orev, idx, func(p, q int) string { return lt[idx[q]][idx[p]] })
 }
 
 func (r *c14Run) setPool(pool []*c14CV) {
